@@ -7,6 +7,7 @@ package main
 // per call), the 8-byte state file, and the lowest 500-entry segment that is still readable.
 
 import (
+	"sync/atomic"
 	"context"
 	"encoding/binary"
 	"encoding/json"
@@ -52,13 +53,19 @@ func crashChild(args []string) {
 	if err != nil {
 		os.Exit(3)
 	}
-	ctx := context.Background()
+	ctx, cancel := context.WithCancel(context.Background())
+	var stopping int32
 	last := make(chan uint64, 4096)
 	go func() {
-		// clean stop: some time after the callback of <upto> returned (its offset is stored right after)
+		// clean stop at the end of the log: the context is cancelled while the callback of <upto> runs;
+		// Consume returns once the batch function has returned, i.e. after the offset has been stored
+		// and the truncation it may trigger has finished (a fixed delay instead lets the process exit in
+		// the middle of a truncation on a loaded machine: fewer segments removed than the model says)
 		for o := range last {
 			if o == upto && !kill {
-				time.Sleep(150 * time.Millisecond)
+				atomic.StoreInt32(&stopping, 1)
+				cancel()
+				time.Sleep(10 * time.Second) // Consume did not return: give up waiting
 				os.Exit(0)
 			}
 		}
@@ -76,6 +83,9 @@ func crashChild(args []string) {
 		last <- offset
 		return nil
 	})
+	if atomic.LoadInt32(&stopping) == 1 {
+		os.Exit(0)
+	}
 	fmt.Fprintln(os.Stderr, "consume returned:", err)
 	os.Exit(5)
 }
